@@ -9,9 +9,16 @@ for d in seeded/${1:-C}*/; do
   [ -f $d/patch.diff ] || continue
   if [ -n "$(git -C /repo status --porcelain)" ]; then echo "REPO NOT CLEAN"; exit 9; fi
   if ! git -C /repo apply /verif/$d/patch.diff 2>/dev/null; then echo "$sid: PATCH DOES NOT APPLY to current /repo HEAD"; fail=1; continue; fi
-  out=$(./check $prop quick 2>&1); rc=$?
+  # the checks named in meta.json's detected_by (first the property's own)
+  ids=$(python3 -c "import json,re,sys;m=json.load(open('$d/meta.json'));print(' '.join(dict.fromkeys(re.findall(r'check (C[0-9]+)', m.get('detected_by','')))))")
+  [ -z "$ids" ] && ids=$prop
+  hit=""
+  for id in $ids; do
+    out=$(./check $id quick 2>&1); rc=$?
+    if [ $rc = 1 ] && echo "$out" | grep -q '^VIOLATION'; then hit="$hit $id"; [ "${ALL:-0}" = 1 ] || break; fi
+  done
   git -C /repo checkout -- . ; git -C /repo clean -fdq
-  if [ $rc = 1 ] && echo "$out" | grep -q '^VIOLATION'; then echo "$sid: detected"; else echo "$sid: MISSED (rc=$rc)"; fail=1; fi
+  if [ -n "$hit" ]; then echo "$sid: detected by$hit"; else echo "$sid: MISSED (tried $ids)"; fail=1; fi
 done
 rm -rf /verif/replays
 exit $fail
